@@ -130,6 +130,11 @@ pub fn dispatch(op: &str, a: &[Val]) -> Option<Val> {
             Some(vtup(vec![vbool(ce), vint(y), vint(z.quarter()), vint(z.num_days_from_ce()), vint(z.num_days_in_month()),
                            vbool(pm), vint(h12), vint(z.num_seconds_from_midnight()), vint(z.iso_week().week0())]))
         })(),
+        // the deprecated panicking constructors
+        #[allow(deprecated)]
+        "z.peast" => (|| Some(enc_fo(FixedOffset::east(a.get(0)?.i32()?))))(),
+        #[allow(deprecated)]
+        "z.pwest" => (|| Some(enc_fo(FixedOffset::west(a.get(0)?.i32()?))))(),
         _ => return None,
     };
     Some(r.unwrap_or_else(bad))
